@@ -1290,6 +1290,104 @@ fn rank_mod_p(m: &Mat, p: u64) -> usize {
     rank
 }
 
+/// Part K: the index is a small multiple of one of the CRT primes the dense routines work with
+/// (the determinant of a minor is then 0 modulo that prime, with rows that are independent over
+/// the integers): 2x2 and 3x3 presentations [[a, b], [1, d]] with a*d - b = k*q.
+fn part_crt_multiple() -> Tally {
+    let mut t = Tally::default();
+    // the primes as CRTDetBuilder::det walks them: below (2^61 / 30) * 30 - 1, steps of 30
+    let mut qs = vec![];
+    let mut p: u64 = ((1u64 << 61) / 30) * 30 - 1;
+    while qs.len() < 3 {
+        p -= 30;
+        while !crate::refmodel::is_prime_u64(p) {
+            p -= 30;
+        }
+        qs.push(p);
+    }
+    for (qi, &q) in qs.iter().enumerate() {
+        for k in 1..=3u128 {
+            let h = k * q as u128;
+            let d = (h as f64).sqrt() as i64;
+            let a = d + 2;
+            let b = (a as i128 * d as i128 - h as i128) as i64;
+            debug_assert!(a as i128 * d as i128 - b as i128 == h as i128);
+            for dim in [2usize, 3] {
+                let mut rows: Mat = if dim == 2 { vec![vec![a, b], vec![1, d]] } else { vec![vec![a, b, 0], vec![1, d, 0], vec![0, 0, 1]] };
+                // one redundant row (sum of the first two), as relation matrices have
+                let extra: Vec<i64> = (0..dim).map(|c| rows[0][c] + rows[1][c]).collect();
+                rows.push(extra);
+                let id = || format!("{dim}x{dim} presentation [[{a}, {b}], [1, {d}]] (+ a redundant row) of index {k} x CRT prime #{qi} = {q}");
+                t.states += 1;
+                t.evals += check_lattice_dense(&rows, h, "crt-prime-multiple", &id, &mut t.bad, true);
+            }
+        }
+    }
+    t
+}
+
+/// Part L: a lattice whose cheapest n-1 rows span a sublattice that is not saturated: rows
+/// d_i e_i (i = 1..4), m*d_0 e_0, d_5 e_5 and d_0 e_0 + d_5 e_5. Every minor built on the short
+/// rows is m*h, the index is h = prod d_i: the routine has to divide the gcd of the minors by the
+/// cofactor m, for indices up to the 2^126 ceiling of its precondition.
+fn part_unsaturated(target_bits: f64, m: i64) -> Tally {
+    let mut t = Tally::default();
+    let each = 2f64.powf(target_bits / 6.0);
+    // d_0 well below, d_5 well above the four middle ones (row order by norm)
+    let mut d: Vec<i64> = vec![crate::refmodel::next_prime_u64((each * 0.36) as u64) as i64];
+    let mut x = each as u64;
+    for _ in 0..4 {
+        x = crate::refmodel::next_prime_u64(x + 1);
+        d.push(x as i64);
+    }
+    d.push(crate::refmodel::next_prime_u64((each / 0.36) as u64) as i64);
+    let h: u128 = d.iter().map(|&v| v as u128).product();
+    if h >= 1u128 << 126 {
+        return t;
+    }
+    let n = 6;
+    let mut rows: Mat = vec![];
+    for i in 1..5 {
+        let mut v = vec![0i64; n];
+        v[i] = d[i];
+        rows.push(v);
+    }
+    let mut v = vec![0i64; n];
+    v[0] = m * d[0];
+    rows.push(v);
+    let mut v = vec![0i64; n];
+    v[5] = d[5];
+    rows.push(v);
+    let mut v = vec![0i64; n];
+    v[0] = d[0];
+    v[5] = d[5];
+    rows.push(v);
+    let hf = h as f64;
+    for (variant, (lo, hi)) in [(hf, hf), (hf * 0.98, hf * 1.01)].into_iter().enumerate() {
+        // the routine widens its bracket before asserting hmax < 2^126 (its precondition)
+        let widened = (1.1 * hi).min(hi + 3.0 * (hi - lo));
+        if widened.log2() >= 126.0 {
+            continue;
+        }
+        let mut rr = rows.clone();
+        if variant == 1 {
+            rr.reverse();
+        }
+        t.states += 1;
+        t.evals += 1;
+        let id = format!("diag {:?} with the row {}*d0*e0 and d0*e0+d5*e5 (log2 h = {:.3}), bounds [{:e}, {:e}]", d, m, hf.log2(), lo, hi);
+        match guarded(|| intdense::compute_lattice_index(&rr, lo, hi)) {
+            Ok(v) => {
+                if v != h {
+                    t.bad.push(("routine=lattice_index;what=wrong-value;family=unsaturated-base".to_string(), format!("compute_lattice_index returned {v} for a row lattice of index {h} ({id})"), id.clone()));
+                }
+            }
+            Err(e) => t.bad.push((format!("routine=lattice_index;what=panic;site={};family=unsaturated-base", e.site), format!("compute_lattice_index panicked for a row lattice of index {h}: {} ({id})", e.short()), id.clone())),
+        }
+    }
+    t
+}
+
 /// Part J: dense matrices with small entries whose quotient is cyclic of large order
 /// (pivots 1, ..., 1, h: the Smith form's 8-row blocked elimination with a large modulus).
 /// The determinant comes from Bareiss elimination; the quotient is cyclic iff the rank modulo
@@ -1476,6 +1574,8 @@ enum Job {
     BigIndex(f64, usize, u64),
     CyclicDense(usize, i64, u64),
     AntiDiag(usize, usize, u64),
+    CrtMultiple,
+    Unsaturated(f64, i64),
 }
 
 fn run_job(j: &Job) -> Tally {
@@ -1491,6 +1591,8 @@ fn run_job(j: &Job) -> Tally {
         Job::BigIndex(b, e, v) => part_big_index(*b, *e, *v),
         Job::CyclicDense(n, r, v) => part_cyclic_dense(*n, *r, *v),
         Job::AntiDiag(a, b, v) => part_antidiag(*a, *b, *v),
+        Job::CrtMultiple => part_crt_multiple(),
+        Job::Unsaturated(b, m) => part_unsaturated(*b, *m),
     }
 }
 
@@ -1643,6 +1745,14 @@ pub fn run(ctx: &Ctx) -> Report {
     for (n, r) in [(10usize, 40i64), (11, 30), (12, 22), (13, 18), (14, 16), (15, 12), (16, 10)] {
         for v in 0..ctx.pick(40u64, 400) {
             jobs.push(Job::CyclicDense(n, r, v));
+            if jobs.iter().all(|j| !matches!(j, Job::CrtMultiple)) {
+                jobs.push(Job::CrtMultiple);
+                for b in [60.0, 100.0, 118.0, 123.0, 124.5, 125.3, 125.6, 125.9] {
+                    for m in [2i64, 3, 5, 7] {
+                        jobs.push(Job::Unsaturated(b, m));
+                    }
+                }
+            }
         }
     }
     // K: block anti-diagonal, dimension 10..40
@@ -1729,7 +1839,7 @@ pub fn run(ctx: &Ctx) -> Report {
     rep.sample(J::obj(vec![("family", J::s("histories from diag(6,10,15)")), ("alphabet", J::s("row/col add +-1, swaps, negations (36 ops)")), ("depth", J::from(d3))]));
     rep.sample(J::obj(vec![("family", J::s("bit-length sweep")), ("bits", J::s(format!("1..{}", ctx.pick(400, 1300))))]));
     rep.rule = format!(
-        "(A) EVERY 2x2 matrix over -3..3 and 3x3 over -1..1{}: det_matz with the exact estimate (|det| >= 2), GFpEchelonBuilder determinant modulo 4 primes (all, including det 0 and +-1), dense lattice index of the rows; reference = cofactor expansion. (B) EVERY permutation of n <= {} elements scaled by distinct primes under 3 sign patterns, alone and embedded behind a dense unitriangular block (dimension 10..12, the 8-row blocked elimination): determinant with sign. (C) EVERY matrix reachable within depth {} (n=3), {} (n=2), {} (n=4), {} (n=10, restricted pair set) from known diagonal forms by row/column additions (+-1), swaps and negations; the determinant sign, the lattice index and the quotient group are tracked along the history; each state is given to det_matz, the echelon builder, dense compute_lattice_index (five brackets containing the index; with and without redundant rows), SmithNormalForm::new + reduce (diagonal, product = index, primary decomposition equal to the known group) and SparseMat::detz. (D) one scrambled matrix for EVERY determinant bit-length 1..{} x 3 sub-bit variants (1..22 CRT primes): det_matz, and the CRTDetBuilder path through compute_lattice_index up to 124 bits. (E) Berlekamp-Massey on EVERY linear recurrence of order <= size over small fields / edge alphabets of 60- and 63-bit primes against a textbook implementation. (F) sparse determinant, detp4 and sparse lattice index on scrambled diagonal forms of dimension {:?}, with and without a pool. A panic inside the documented precondition counts as a failure to return the value.",
+        "(A) EVERY 2x2 matrix over -3..3 and 3x3 over -1..1{}: det_matz with the exact estimate (|det| >= 2), GFpEchelonBuilder determinant modulo 4 primes (all, including det 0 and +-1), dense lattice index of the rows; reference = cofactor expansion. (B) EVERY permutation of n <= {} elements scaled by distinct primes under 3 sign patterns, alone and embedded behind a dense unitriangular block (dimension 10..12, the 8-row blocked elimination): determinant with sign. (C) EVERY matrix reachable within depth {} (n=3), {} (n=2), {} (n=4), {} (n=10, restricted pair set) from known diagonal forms by row/column additions (+-1), swaps and negations; the determinant sign, the lattice index and the quotient group are tracked along the history; each state is given to det_matz, the echelon builder, dense compute_lattice_index (five brackets containing the index; with and without redundant rows), SmithNormalForm::new + reduce (diagonal, product = index, primary decomposition equal to the known group) and SparseMat::detz. (D) one scrambled matrix for EVERY determinant bit-length 1..{} x 3 sub-bit variants (1..22 CRT primes): det_matz, and the CRTDetBuilder path through compute_lattice_index up to 124 bits. (E) Berlekamp-Massey on EVERY linear recurrence of order <= size over small fields / edge alphabets of 60- and 63-bit primes against a textbook implementation. (K) 2x2 and 3x3 presentations whose index is 1..3 times one of the first three CRT primes of the dense routines; (L) six-generator lattices whose short rows span a sublattice of index 2, 3, 5, 7 in its saturation, for indices of 60..125.9 bits (the routine must divide the gcd of its minors by that cofactor, up to its 2^126 ceiling). (F) sparse determinant, detp4 and sparse lattice index on scrambled diagonal forms of dimension {:?}, with and without a pool. A panic inside the documented precondition counts as a failure to return the value.",
         if q { "" } else { ", 3x3 over -2..2, 4x4 over -1..1" },
         ctx.pick(6, 8),
         d3,
